@@ -494,7 +494,8 @@ def monitors(h, out, default_group=1):
                 num = [a[1] for a in st['alloc'] if a[0] == 'buf'][0]
             buf_frames[nbuf] = op.get('frames') if o == 'b_new' else (op.get('size') if o == 'b_new_cue' else None)
             buf_objs[nbuf] = num; nbuf += 1
-            cache.add(num)
+            if op.get('cache', True):
+                cache.add(num)
             created = [num] if op.get('alloc', True) else []
         elif o in ('b_new',):
             buf_objs[nbuf] = None; nbuf += 1; created = []
@@ -861,6 +862,26 @@ FIXED_HISTORIES = [
         {'op': 'bus_new', 'audio': False, 'channels': 2}, {'op': 'bus_new', 'audio': False, 'channels': 1},
         {'op': 'bus_new', 'audio': False, 'channels': 1}, {'op': 'bus_new', 'audio': False, 'channels': 2},
         {'op': 'b_free_all'}]},
+    # accessors that render an object's id into an argument, used before and after free (values cached on the object)
+    {'cls': 'valid', 'tags': ['fixed:accessors-after-free'], 'ops': [
+        {'op': 'bus_new', 'audio': False, 'channels': 1}, {'op': 'bus_new', 'audio': True, 'channels': 2},
+        {'op': 'bus_new', 'audio': False, 'channels': 2},
+        {'op': 'synth', 'ctor': 'init', 'def': 'default', 'args': {'v': 'l', 'x': [{'v': 's', 'x': 'freq'}, {'v': 'map', 'i': 0}, {'v': 's', 'x': 'in'}, {'v': 'map', 'i': 1}]},
+         'target': {'t': 'none'}, 'action': 0, 'same_id': False},
+        {'op': 'bus_free', 'u': 0}, {'op': 'bus_free', 'u': 1}, {'op': 'bus_free', 'u': 2},
+        {'op': 'n_set', 'n': 0, 'args': [{'v': 's', 'x': 'freq'}, {'v': 'map', 'i': 0}]},
+        {'op': 'n_set', 'n': 0, 'args': [{'v': 's', 'x': 'in'}, {'v': 'l', 'x': [{'v': 'i', 'x': 1}, {'v': 'map', 'i': 1}]}]},
+        {'op': 'n_set', 'n': 0, 'args': [{'v': 's', 'x': 'pan'}, {'v': 'map', 'i': 2}]},
+        {'op': 'bus_new', 'audio': False, 'channels': 1},
+        {'op': 'bind_enter'},
+        {'op': 'synth', 'ctor': 'init', 'def': 'default', 'args': {'v': 'd', 'x': [[{'v': 's', 'x': 'freq'}, {'v': 'map', 'i': 0}]]},
+         'target': {'t': 'none'}, 'action': 0, 'same_id': False},
+        {'op': 'n_set', 'n': 0, 'args': [{'v': 's', 'x': 'freq'}, {'v': 'map', 'i': 3}]},
+        {'op': 'bind_exit'},
+        {'op': 'b_new', 'frames': 8, 'channels': 1, 'compl': None, 'cache': False},
+        {'op': 'b_new', 'frames': 8, 'channels': 1, 'compl': None},
+        {'op': 'n_set', 'n': 0, 'args': [{'v': 's', 'x': 'bufnum'}, {'v': 'buf', 'i': 0}]},
+        {'op': 'b_free', 'b': 0, 'compl': None}, {'op': 'b_free', 'b': 1, 'compl': None}]},
     {'cls': 'valid', 'tags': ['fixed:F15'], 'ops': [
         {'op': 'b_new', 'frames': 16, 'channels': 1, 'compl': None},
         {'op': 'b_free', 'b': 0, 'compl': None},
